@@ -83,7 +83,7 @@ class Rec:
         """key of the vector the stored costs were computed from (-1: none of the vectors seen)"""
         if not ind.costs:
             return 0
-        want = [c for c in ind.costs[:self.m]]
+        want = list(ind.costs)          # the WHOLE stored cost list must be what the objective returned (no extra entries)
         if [n / 1e9 for n in fp_costs(ind.vector, self.m)] == want:
             return self.vkey(ind.vector)
         for t, k in list(self.vkeys.items()):
@@ -276,7 +276,7 @@ def quiesce(rec, timeout=10.0):
     return False
 
 
-def evaluate_batch(rec, workers=1, rounds=1):
+def evaluate_batch(rec, workers=1, rounds=1, on_exception=None):
     """Algorithm.evaluate on the recorded batch; returns the exception seen by the caller (or None)."""
     from artap.algorithm import DummyAlgorithm
     alg = DummyAlgorithm(rec.problem)
@@ -292,7 +292,9 @@ def evaluate_batch(rec, workers=1, rounds=1):
             if isinstance(e, (KeyboardInterrupt, SystemExit)) or type(e).__name__ == "MachineryError":
                 raise
             exc = e
+            if on_exception:
+                on_exception()
             if workers > 1:
-                quiesce(rec)
+                quiesce(rec, timeout=3.0)
             break
     return exc
